@@ -7,7 +7,7 @@ import itertools
 from sa.canon import canon
 from sa.peval import peval
 from sa.report import Ctx
-from sa.sym import FALSE, NONE, Summary, bind_args, conjuncts, show, subst, walk
+from sa.sym import callkw, FALSE, NONE, Summary, bind_args, conjuncts, show, subst, walk
 
 OPS = "soundevent.geometry.operations"
 CONV = "soundevent.geometry.conversion"
@@ -146,7 +146,7 @@ class C11:
                 ctx.bad("R11.2", self.file, fn, f"return {show(t)[:60]}",
                         f"{fn} must build its result with the validating constructor data.{cls}(coordinates=[...])", s.returns[0].lineno)
                 continue
-            coords = dict(t[3]).get("coordinates")
+            coords = callkw(t).get("coordinates")
             if coords is None or coords[0] != "list" or len(coords[1]) != len(want):
                 ctx.bad("R11.2", self.file, fn, f"coordinates={show(coords)[:60] if coords else '-'}",
                         f"{fn} must return {len(want)} coordinates", s.returns[0].lineno)
@@ -174,7 +174,7 @@ class C11:
         # R11.6 factor symmetry
         lam = {}
         for e in tr:
-            f = e.term[2][1] if len(e.term[2]) > 1 else dict(e.term[3]).get("transformation")
+            f = e.term[2][1] if len(e.term[2]) > 1 else callkw(e.term).get("transformation")
             if f is None or f[0] != "lambda":
                 ctx.undec("R11.6", site, "transform function is not a lambda")
                 return
@@ -194,7 +194,7 @@ class C11:
             ctx.bad("R11.6", self.file, "buffer_shapely_geometry", f"x * f then x / f' : {show(b1)[:40]} / {show(b2)[:40]}",
                     "the geometry is not scaled by a factor, buffered, and unscaled by the SAME factor in that order: the result is "
                     "distorted instead of grown by (time_buffer, freq_buffer)", s.node.lineno)
-        if bu[0].term[2][1:2] == (("const", 1),) or dict(bu[0].term[3]).get("distance") == ("const", 1):
+        if bu[0].term[2][1:2] == (("const", 1),) or callkw(bu[0].term).get("distance") == ("const", 1):
             ctx.ok("R11.6", site, "buffer distance is 1 in scaled units")
         else:
             ctx.bad("R11.6", self.file, "buffer_shapely_geometry", f"shapely.buffer({show(bu[0].term)[:70]})", "the buffer distance in scaled units must be 1", bu[0].lineno)
